@@ -16,7 +16,7 @@ Section Ep.
 Variable b : board.
 Variable m : N.
 Hypothesis HR : Rep b.
-Hypothesis HV : valid (abs b) = true.
+Hypothesis HV : valid_core (abs b) = true.
 Hypothesis HL : legal_spec (abs b) m = true.
 
 Let from := mv_from m.
@@ -270,7 +270,7 @@ Qed.
 Lemma t0_facts : t0 < 64 /\ cell b t0 = Some (them, King) /\
   (forall s, s < 64 -> cell b s = Some (them, King) -> s = t0).
 Proof.
-  unfold t0. destruct (unique_king (abs b) them (material_king _ _ (valid_material _ them HV))) as [U1 [U2 U3]].
+  unfold t0. destruct (unique_king (abs b) them (valid_core_king _ them HV)) as [U1 [U2 U3]].
   split; [exact U1|].
   assert (C : forall s, s < 64 -> holds (abs b) s them King = true <-> cell b s = Some (them, King)).
   { intros s Hs. rewrite (holds_abs b s them King Hs). destruct (cell b s) as [[c' k']|]; split; try discriminate.
@@ -324,7 +324,7 @@ Qed.
 (* the pawn still standing on its origin square does not attack the enemy king (valid position) *)
 Lemma origin_pawn_harmless : mem (pawn_attacks me from) t0 = false.
 Proof.
-  destruct (valid_parts _ HV) as [_ [_ [_ [_ [HC _]]]]].
+  destruct (valid_core_parts _ HV) as [_ [_ [HC _]]].
   unfold in_check_spec in HC. cbn [turn abs] in HC. rewrite flip_flip in HC. unfold attacked_by in HC.
   unfold t0, them, me.
   pose proof (existsb_false_all _ _ from HC (proj2 (squares64_In from) from_lt')) as K. cbv beta in K.
